@@ -1310,7 +1310,7 @@ def gen_play_fns(path=None):
     if path is not None:
         _SRC[REL] = path
     try:
-        tr = Translator(parse(REL))
+        tr = Translator(gen.normalise_ifs(parse(REL), 'expr'))
         defs = tr.run()
     finally:
         _SRC.pop(REL, None)
